@@ -3,7 +3,7 @@ import time
 import traceback
 import z3
 from ctx import Ctx, Infeasible, Inconclusive, Cutoff
-from engine import (Interp, RustPanic, Unsupported, StepBudget, ProcessExit, RString, RVec, Slice, Agg, Ref, RMap, Opaque,
+from engine import (Interp, RustPanic, Unsupported, StepBudget, ProcessExit, EndPath, RString, RVec, Slice, Agg, Ref, RMap, Opaque,
                     is_sym)
 
 class Violation(Exception):
@@ -95,6 +95,8 @@ def explore(prog, harness, on_leaf, profile='dev', max_paths=None, deadline=None
             if setup: setup(I)
             payload = harness(I)
             leaf = Leaf('ok', payload)
+        except EndPath as e:
+            leaf = Leaf('ok', {'end': e.reason})
         except Violation as v:
             leaf = Leaf('violation', v.detail, msg=v.label, model=v.model)
         except RustPanic as p:
